@@ -268,6 +268,9 @@ def run_query(ob, extra_defs):
     r = Run()
     try:
         gb = build_goto(ob, extra_defs)
+        # the native twin is linked up front as well: a duplicate definition (harness stub vs real unit), which
+        # goto-cc resolves silently, is a link error here, and a later replay cannot fail for build reasons
+        build_native(ob, extra_defs)
     except BuildError as e:
         r.status = 'build-error'; r.detail = str(e); return r, None
     cmd = cbmc_cmd(ob, gb)
